@@ -362,6 +362,7 @@ def work(rec, b, indices):
         if c2.meta.get('extra_pending'):
             viol, _opn, (px, py), rp = c2.meta['extra_pending']
             outer = holes = 0
+            over = []
             for e in raw[:1]:
                 for nd in e['nodes']:
                     pts = [(nd['pts'][k], nd['pts'][k + 1]) for k in range(0, len(nd['pts']), 2)]
@@ -371,9 +372,16 @@ def work(rec, b, indices):
                             holes += 1
                         else:
                             outer += 1
-            if raw and outer >= 2 and holes == 0:
+                            over.append(pts)
+            # the finding is about pockets between touching pieces: the contour that should have been a hole shares vertices with the boundary
+            # of the contour around it (a clean interior hole reported as a contour would be something else, and stays a violation)
+            touching = 0
+            if len(over) >= 2:
+                over.sort(key=lambda q: abs(geom.area2(q)))
+                touching = sum(1 for v in over[0] if geom.winding(over[-1], v[0], v[1]) is None)
+            if raw and outer >= 2 and holes == 0 and touching >= 2:
                 rec.violation('C05/clipper-hole-reported-as-contour', '%s; in the raw output of the clipping engine for the same operands %d outer contours and no hole '
-                              'cover that point' % (viol[1], outer), rp)
+                              'cover that point, the inner one touching the outer one at %d vertices' % (viol[1], outer, touching), rp)
                 rec.cov('holes_reported_as_contours_by_clipper')
             else:
                 rec.violation(viol[0], viol[1], rp)
@@ -400,6 +408,15 @@ def run(tier):
     b = vfw.build()
     n = N[tier]
     vfw.run_sharded(chk, b, n, work)
+    # The two classified findings are anomalies of the clipping engine met about once in 60000 random cases on the unchanged tree.  A change
+    # inside the engine that makes the same anomaly common must not hide behind them: more than 1 + n/20000 classified cases in one run are
+    # reported under their own key.
+    for key in ('C05/clipper-hole-reported-as-contour', 'C05/area/contour-with-reversed-lobe'):
+        seen = chk.violation_counts.get(key, 0)
+        if seen > 1 + n // 20000:
+            wit = [v for v in chk.violations if v[0] == key]
+            chk.violation(key + '/too-frequent', '%d of %d random cases show this anomaly (at most %d expected from the unchanged clipping engine); e.g. %s' % (
+                seen, n, 1 + n // 20000, wit[0][1][:300] if wit else ''), {'witness_replays': [w_[2] for w_ in wit], 'case': ''})
     work(chk, b, [PROBE_INDEX, PROBE2_INDEX])         # known findings: print KNOWN-FINDING while they reproduce
     chk.evaluations -= 2
     c = make_case(0)
